@@ -94,15 +94,25 @@ theorem initObject_meta (mk : Meta → Object) (hmk : IsMk mk) (o : Opts) (m : M
 theorem initObject_of (empty : Object) (inDelete : Bool) (attrs : List (String × Bytes)) (obj : Object) (loc : Location)
     (user : Bytes)
     (h : initObjectAttrs attrs (if inDelete then mapMeta (fun m => { m with visible := false }) empty else empty)
-      Location.undefined [] = .ok (obj, loc, user)) :
+      Location.undefined [] = .ok (obj, loc, user)) (hu : user.length ≤ 1024) :
     initObject empty inDelete attrs =
       (match mapMeta (fun m => { m with user := user }) obj with
        | .node m _ => .ok (.node m (if bothDefined loc then loc else Location.undefined))
        | o => .ok o) := by
+  have hlen : ¬ (user.length > OplFmt.maxString) := by simp [OplFmt.maxString]; omega
   unfold initObject
   simp only []
   rw [h]
+  simp only [bindE_ok, hlen, if_false]
   rfl
+
+/-- the user name `write_meta` emits is short enough for `set_user` -/
+theorem userSel_len (o : Opts) (m : Meta) (hm : XMetaOK m) :
+    (if (o.md.user && !m.user.isEmpty) then m.user else []).length ≤ 1024 := by
+  obtain ⟨_, _, _, hl⟩ := xstrOK_spec hm.user
+  split
+  · exact hl
+  · simp
 
 theorem assemble_way (C : Cur) (M : Meta) (ts : List Tag) (X : List NodeRef) (h1 : C.obj = .way M [])
     (h2 : firstTags C.subs = ts) (h3 : firstNodes C.subs = X) : assemble C = .way { M with tags := ts } X := by
@@ -152,7 +162,7 @@ theorem way_rt (o : Opts) (m : Meta) (ns : List NodeRef) (hm : XMetaOK m) (hns :
     rw [(start_object st _ hdp rest hs _).2.1]
     have := hinit
     simp only [List.append_nil] at this
-    rw [initObject_of _ _ _ _ _ _ (this.trans rfl)]
+    rw [initObject_of _ _ _ _ _ _ (this.trans rfl) (userSel_len o m hm)]
     simp only [mapMeta, bindE_ok, meta_result o m hm]
   let st1 : RSt := { markDone (push st .way) with cur := some { obj := .way { projectMeta o m with tags := [] } [] } }
   have hs1 : st1.stack = Ctx.way :: parentCtx o m :: rest := by
@@ -236,7 +246,7 @@ theorem relation_rt (o : Opts) (m : Meta) (ms : List Member) (hm : XMetaOK m) (h
     rw [(start_object st _ hdp rest hs _).2.2]
     have := hinit
     simp only [List.append_nil] at this
-    rw [initObject_of _ _ _ _ _ _ (this.trans rfl)]
+    rw [initObject_of _ _ _ _ _ _ (this.trans rfl) (userSel_len o m hm)]
     simp only [mapMeta, bindE_ok, meta_result o m hm]
   let st1 : RSt := { markDone (push st .relation) with cur := some { obj := .relation { projectMeta o m with tags := [] } [] } }
   have hs1 : st1.stack = Ctx.relation :: parentCtx o m :: rest := by
@@ -341,7 +351,7 @@ theorem node_rt (o : Opts) (m : Meta) (l : Location) (hm : XMetaOK m) (hl : XLoc
   have hstart : startElement {} st "node" (metaList o m idv vv uv cv m.user ++ extra) =
       .ok { markDone (push st .node) with cur := some { obj := .node { projectMeta o m with tags := [] } (projectLoc l) } } := by
     rw [(start_object st _ hdp rest hs _).1]
-    rw [initObject_of _ _ _ _ _ _ (hinit.trans (hextra _ _))]
+    rw [initObject_of _ _ _ _ _ _ (hinit.trans (hextra _ _)) (userSel_len o m hm)]
     simp only [mapMeta, bindE_ok, meta_result o m hm, hbd]
   let st1 : RSt := { markDone (push st .node) with cur := some { obj := .node { projectMeta o m with tags := [] } (projectLoc l) } }
   have hs1 : st1.stack = Ctx.node :: parentCtx o m :: rest := by
